@@ -13,7 +13,7 @@ CONSTANTS
   ProfileSel = {1, 2}
   UseJson = FALSE
   BoundarySel = {1}
-  PreSel = {1, 3}
+  PreSel = {1}
   EpiSel = {1}
   FinSel = {TRUE, FALSE}
   LimModes = {"base", "count", "hdr", "buf"}
